@@ -1,7 +1,24 @@
 (** C15 — Balanced trees stay logarithmic and report their true height.
     Statements only; proofs live in C15/Proofs*.v (on the models of C01/Model.v). *)
 From Algo.C01 Require Import Model Spec.
+From Algo.C15 Require Import Spec Proofs.
 Open Scope Z_scope.
+
+(** AVL, after any history of Put / Delete / DeleteMin / DeleteMax / DeleteAll (any arguments, any
+    comparator that is a total preorder): no operation panics, the real heights of the two subtrees
+    of every node differ by at most one, every cached height is the real height, and Height()
+    (which returns the cached height of the root) is the real height. [avl_check] is the boolean
+    checker the correspondence runs on the hook dump of the implementation. *)
+Theorem C15_avl :
+  forall (K V : Type) (cmp : K -> K -> Z), TotalOrder cmp ->
+  forall h : list (mut K V),
+  exists t, build cmp AVL h = Ok t /\
+    balanced t /\ cached_heights_ok t /\ Height AVL t = height t /\ avl_check t = true.
+Proof. intros K V cmp TO h. exact (avl_after_history cmp TO h). Qed.
+
+Theorem C15_avl_check_sound :
+  forall (K V : Type) (t : tree K V), avl_check t = true -> balanced t /\ cached_heights_ok t.
+Proof. intros K V t. exact (avl_check_sound t). Qed.
 
 (** Non-vacuity and the witnesses of defect D15 on the model of the repaired code
     ([_deleteMax] refreshes the cached height): Put 1; Put 2; DeleteMax leaves a one-node tree of
@@ -18,3 +35,6 @@ Example C15_example :
    | Ok t => rb_check t = true /\ height t <= rb_height_bound (size t)
    | _ => False end).
 Proof. vm_compute. repeat split; reflexivity || discriminate. Qed.
+
+Print Assumptions C15_avl.
+Print Assumptions C15_avl_check_sound.
